@@ -21,14 +21,13 @@ def configs(tier):
             cfgs.append({'dtype': dt, 'trail': trail, 'start_len': n0, 'Lmax': 2,
                          'oracles': ['format'], 'features': FEATURES})
     else:
-        for dt in payload.ALL_DTYPES:
-            for trail in ([], [2], [2, 3]):
+        for i, dt in enumerate(payload.ALL_DTYPES):
+            for trail in ([], [2] if i % 2 else [2, 3]):
                 cfgs.append({'dtype': dt, 'trail': trail, 'start_len': 0, 'Lmax': 2,
                              'oracles': ['format'], 'features': FEATURES})
-        for dt, trail in (('<f8', []), ('>i2', [2]), ('<c8', [2, 3]), ('|u1', [])):
-            for n0 in (0, 2):
-                cfgs.append({'dtype': dt, 'trail': trail, 'start_len': n0, 'Lmax': 3,
-                             'oracles': ['format'], 'features': FEATURES})
+        for dt, trail, n0 in (('<f8', [], 0), ('>i2', [2], 2)):
+            cfgs.append({'dtype': dt, 'trail': trail, 'start_len': n0, 'Lmax': 3,
+                         'oracles': ['format'], 'features': FEATURES})
     cfgs.sort(key=lambda c: -c['Lmax'])
     return cfgs
 
